@@ -2,6 +2,7 @@ package props
 
 import (
 	"fmt"
+	"sync/atomic"
 	"time"
 
 	"github.com/grailbio/bigslice"
@@ -227,4 +228,85 @@ func hasCtx(sp *Spec) bool {
 		}
 	}
 	return false
+}
+
+// c20drop: the reply of the k-th Worker.Run is lost on the way to the driver (the worker has run
+// the task and recorded its metrics; no machine fails). The call is retried and answered by the
+// worker from the task it already completed: the scope that arrives must still carry the task's
+// counters.
+type c20drop struct {
+	Spec    Spec `json:"spec"`
+	Ordinal int  `json:"ordinal"`
+}
+
+func runC20drop(t *vf.T, pool *sessionPool, c c20drop) {
+	want, _, err := evalSpec(&c.Spec, nil)
+	if err != nil || want.Weak {
+		return
+	}
+	// reference counters: a failure-free run of the same (deterministic) program
+	ref := c.Spec
+	ref.Run = fmt.Sprintf("c20d-%d-ref", t.Index())
+	defer probes.Delete(ref.Run)
+	lsr := pool.get(bm2)
+	o := runSpec(lsr, ref, [2]bigslice.Slice{}, true, 120*time.Second)
+	if o.TimedOut || o.RunErr != nil || o.ScanErr != nil || o.Panic != nil {
+		t.Inconclusive(fmt.Sprintf("reference run: %v %v %v", o.RunErr, o.ScanErr, o.Panic))
+		pool.drop(bm2)
+		return
+	}
+	refCtrs := counterValues(o.Res)
+	o.Res.Discard(bgctx)
+	ls := startSession(bm2, ipAction{Method: "Worker.Run", Ordinal: c.Ordinal, When: "after", What: "drop-reply"})
+	defer ls.Close()
+	sp := c.Spec
+	sp.Run = fmt.Sprintf("c20d-%d", t.Index())
+	defer probes.Delete(sp.Run)
+	out := runSpec(ls, sp, [2]bigslice.Slice{}, true, 120*time.Second)
+	dropped := atomic.LoadInt64(&ls.IP.dropped)
+	switch {
+	case out.TimedOut:
+		t.Inconclusive("watchdog")
+		return
+	case out.Panic != nil:
+		t.Violate("drop-reply panic:"+out.PanicAt, fmt.Sprint(out.Panic))
+		return
+	case out.RunErr != nil || out.ScanErr != nil:
+		// a lost reply may legitimately fail the run; the counters of a failed run are not judged
+		t.Count("drop_reply_runs_failed", 1)
+		return
+	}
+	if d := compareResult(out.Rows, want); d != "" {
+		t.Violate("drop-reply rows-differ", d)
+		return
+	}
+	got := counterValues(out.Res)
+	if got != refCtrs {
+		t.Violate(fmt.Sprintf("drop-reply counters-differ dropped=%v", dropped > 0), fmt.Sprintf("the reply of Worker.Run #%d was dropped (%d dropped) and the call retried; the result reports %v, a failure-free run of the same program %v | %s", c.Ordinal, dropped, got, refCtrs, specString(&c.Spec)))
+		return
+	}
+	t.Count("drop_reply_runs", 1)
+	if dropped > 0 && refCtrs != ([nCounters]int64{}) {
+		t.Count("replies_dropped_after_the_task_had_run", dropped)
+		t.Nontrivial("")
+	}
+}
+
+func runC20drops(r *vf.Runner) {
+	pool := &sessionPool{}
+	defer pool.closeAll()
+	progs := []Spec{
+		{Nodes: []PNode{{Op: "readerfunc", Shards: 3, Rows: 60, Out: []string{"int", "string"}, Salt: 5, Mod: 20, Chunks: []int{25}}, {Op: "map", In: []int{0}, Out: []string{"int", "int64"}, Src: []int{0, -1}, Salt: 2, Mod: 9, Ctx: true}, {Op: "filter", In: []int{1}, P: 3, Salt: 1, Ctx: true}}},
+		{Nodes: []PNode{{Op: "const", Shards: 2, Rows: 90, Out: []string{"int", "int64"}, Salt: 6, Mod: 15}, {Op: "map", In: []int{0}, Out: []string{"int", "int64"}, Src: []int{0, 1}, Salt: 3, Ctx: true}, {Op: "reduce", In: []int{1}, Fold: "sum"}, {Op: "filter", In: []int{2}, P: 4, Salt: 2, Ctx: true}}},
+	}
+	maxOrd := 8
+	for pi, p := range progs {
+		for k := 0; k < maxOrd; k++ {
+			if r.Quick() && (k+pi)%2 == 1 {
+				continue
+			}
+			c := c20drop{Spec: p, Ordinal: k}
+			r.Case(c, func(t *vf.T) { runC20drop(t, pool, c) })
+		}
+	}
 }
